@@ -372,7 +372,7 @@ func runCase(t *chaingen.Tree, cs Case, wantCoq bool) (o outcome) {
 			fail(k, "c03-twin-failed", "%v", err)
 			break
 		}
-		if f, _ := storeobs.CompareWithTwin(view, lin, false); f != nil {
+		if f, _ := storeobs.CompareWithTwin(view, lin, false, nil); f != nil {
 			fail(k, "c03-image-"+strings.TrimPrefix(f.Kind, "c02-"), "the image committed after step %d (%s of block %d, tip %d) is not consistent with the chain of its tip: %s", im.Step, stepName(st), st.Node, tip.Idx, f.Detail)
 		}
 		if f, _ := storeobs.CheckProofs(view, lin, R); f != nil {
